@@ -742,8 +742,7 @@ class CoqCases:
                 fi = self.T.resolve(OPS.MUT_ENTRY[st['m']['how']][0])
                 invalidates = fi is None or self.T.op_ok.get(fi.qname, True)
                 if failed and texts_prev.get(o) == texts[o]:
-                    self.fresh[(self.did(texts[o]), v)] = 0          # the mutator raised before changing anything
-                    emit('PQuery %d %d 0' % (index[o], v), i, 'touch')
+                    emit('PTouch %d %d' % (index[o], v), i, 'touch')          # the mutator raised before changing anything
                 else:
                     emit('%s %d %d %d' % ('PMut' if invalidates and not failed else 'PMutNoInval', index[o], v, self.did(texts[o])), i, 'mut')
             elif op == 'derive':
@@ -759,12 +758,9 @@ class CoqCases:
                     # from the new object's own data while it was being built)
                     for k in rec['filled'].get(st['as'], []):
                         if k in inst_keys:
-                            self.fresh[(dn, self.gen.key_id[k])] = 0
-                            emit('PQuery %d %d 0' % (index[st['as']], self.gen.key_id[k]), i, 'touch')
+                            emit('PTouch %d %d' % (index[st['as']], self.gen.key_id[k]), i, 'touch')
                 else:
-                    d = self.did(texts_prev.get(o, ''))
-                    self.fresh[(d, v)] = 0
-                    emit('PQuery %d %d 0' % (index[o], v), i, 'touch')
+                    emit('PTouch %d %d' % (index[o], v), i, 'touch')
             elif op == 'query':
                 o = st['obj']
                 if o not in index or o not in texts:
@@ -775,8 +771,7 @@ class CoqCases:
                 req = {'text': texts[o], 'q': q}
                 same, diff = fresh.get(seed, req), fresh.get(other_seed(seed), req)
                 if same is None or same != diff or 'crash' in same or skipped(same, rec['r']):
-                    self.fresh[(d, v)] = 0
-                    emit('PQuery %d %d 0' % (index[o], v), i, 'touch')
+                    emit('PTouch %d %d' % (index[o], v), i, 'touch')
                 else:
                     self.fresh[(d, v)] = self.vid(same)
                     for (txt2, val2) in extra_fresh.get(i, []):
@@ -788,8 +783,7 @@ class CoqCases:
                     if o in index:
                         for k in rec['filled'].get(o, []):
                             if k in inst_keys:
-                                self.fresh[(self.did(texts[o]), self.gen.key_id[k])] = 0
-                                emit('PQuery %d %d 0' % (index[o], self.gen.key_id[k]), i, 'touch')
+                                emit('PTouch %d %d' % (index[o], self.gen.key_id[k]), i, 'touch')
             for o, txt in texts.items():
                 if o in index:
                     emit('PText %d %d' % (index[o], self.did(txt)), i, 'text')
